@@ -89,7 +89,8 @@ class G:
             self.features.add("global-write")
         self.uid += 1
         t = f"t{self.uid}"
-        L.append(f"    {t} = {self.mix(params)}")
+        m0 = self.mix(params)
+        L.append(f"    {t} = {m0}" if not m0.isidentifier() else f"    {t} = {m0} + 0")
         names.append(t)
         # statements
         nst = self.n(1, 4)
